@@ -9,6 +9,7 @@ import (
 	"github.com/taurusgroup/multi-party-sig/pkg/math/curve"
 	"github.com/taurusgroup/multi-party-sig/pkg/party"
 	"github.com/taurusgroup/multi-party-sig/protocols/cmp"
+	cmpconfig "github.com/taurusgroup/multi-party-sig/protocols/cmp/config"
 	"github.com/taurusgroup/multi-party-sig/protocols/doerner"
 	"github.com/taurusgroup/multi-party-sig/protocols/frost"
 	"github.com/taurusgroup/multi-party-sig/verifharness/conv"
@@ -319,3 +320,53 @@ func PreSignatures(res map[party.ID]interface{}) (map[party.ID]*ecdsa.PreSignatu
 }
 
 var _ = curve.Secp256k1{}
+
+// Clone deep-copies the parts of the material that the library may update in place (FROST refresh
+// adds to the old PrivateShare scalar), so that an old epoch can still be used after a refresh.
+func (m *Material) Clone() *Material {
+	c := *m
+	cs := func(s curve.Scalar) curve.Scalar { return Group.NewScalar().Set(s) }
+	cp := func(p curve.Point) curve.Point { return conv.Point(conv.Ref(p)) }
+	switch m.Scheme {
+	case SchemeCMP:
+		c.CMP = map[party.ID]*cmp.Config{}
+		for id, k := range m.CMP {
+			n := *k
+			n.ECDSA, n.ElGamal = cs(k.ECDSA), cs(k.ElGamal)
+			n.RID, n.ChainKey = k.RID.Copy(), append([]byte{}, k.ChainKey...)
+			n.Public = map[party.ID]*cmpconfig.Public{}
+			for j, p := range k.Public {
+				n.Public[j] = &cmpconfig.Public{ECDSA: cp(p.ECDSA), ElGamal: cp(p.ElGamal), Paillier: p.Paillier, Pedersen: p.Pedersen}
+			}
+			c.CMP[id] = &n
+		}
+	case SchemeFrost:
+		c.Frost = map[party.ID]*frost.Config{}
+		for id, k := range m.Frost {
+			n := *k
+			n.PrivateShare, n.PublicKey = cs(k.PrivateShare), cp(k.PublicKey)
+			n.ChainKey = append([]byte{}, k.ChainKey...)
+			vs := map[party.ID]curve.Point{}
+			for j, p := range k.VerificationShares.Points {
+				vs[j] = cp(p)
+			}
+			n.VerificationShares = party.NewPointMap(vs)
+			c.Frost[id] = &n
+		}
+	case SchemeFrostTap:
+		c.FrostTap = map[party.ID]*frost.TaprootConfig{}
+		for id, k := range m.FrostTap {
+			n := k.Clone()
+			for j, p := range k.VerificationShares {
+				n.VerificationShares[j] = cp(p).(*curve.Secp256k1Point)
+			}
+			c.FrostTap[id] = n
+		}
+	case SchemeDoerner:
+		r, s := *m.DoernerR, *m.DoernerS
+		r.SecretShare, r.Public, r.ChainKey = cs(r.SecretShare), cp(r.Public), append([]byte{}, r.ChainKey...)
+		s.SecretShare, s.Public, s.ChainKey = cs(s.SecretShare), cp(s.Public), append([]byte{}, s.ChainKey...)
+		c.DoernerR, c.DoernerS = &r, &s
+	}
+	return &c
+}
